@@ -222,7 +222,8 @@ class Parser:
 
     def func(self, name, a):
         c = self.c
-        if kind_of(a) == "complex" and not c.symbolic:
+        if kind_of(a) == "complex" and not c.symbolic and name not in ("exp", "sin", "cos", "sinh", "cosh"):
+            # (exp, sin, cos, sinh, cosh are entire functions: no cuts, no poles)
             # branch cuts of the complex elementary functions lie on the axes: arguments within rounding of an axis are outside the claim
             za = complex(a)
             if min(abs(za.real), abs(za.imag)) <= 1e-9 * max(abs(za), 1e-300):
